@@ -24,6 +24,10 @@ func init() {
 			"Not covered: that the dependency's lexers surface a reader error through Err() (read: parse.NewInput stores the io.ReadAll error; trusted).",
 		Run: runC14,
 	})
+	mutant(&Mutant{Name: "c14-writer-wrapper-buffers-the-destination", Property: "C14", File: "minify.go",
+		Old: "\t\tif err := m.Minify(mediatype, w, pr); err != nil {\n\t\t\tz.err = err\n\t\t}\n", New: "\t\tbw := bufio.NewWriter(w)\n\t\tdefer bw.Flush()\n\t\tif err := m.Minify(mediatype, bw, pr); err != nil {\n\t\t\tz.err = err\n\t\t}\n",
+		Old2: "import (\n", New2: "import (\n\t\"bufio\"\n",
+		Rule: "R14.7", Construct: "keeps the error of its flush"})
 	mutant(&Mutant{Name: "c14-cmd-input-copy-error-shadowed", Property: "C14", File: "minify.go",
 		Old: "\t} else if _, err := io.Copy(in, r); err != nil {\n\t\treturn err\n\t}\n", New: "\t} else if _, err := io.Copy(in, r); err == nil {\n\t\t_ = in.Sync()\n\t}\n",
 		Rule: "R14.5", Construct: "cmdMinifier.Minify/read of the input"})
@@ -69,6 +73,7 @@ func runC14(c *Ctx) {
 	c.r144()
 	c.r145()
 	c.r146()
+	c.r147()
 }
 
 // minifierMethods returns the Minify methods of type Minifier in the format packages.
@@ -961,4 +966,87 @@ func (c *Ctx) r146() {
 		c.R.Check(len(bad) == 0, rule, rel+".Minifier.Minify/no lossy buffering in front of the probed writer", c.pos(fd), fmt.Sprintf("%d buffering wrapper(s) over the writer parameter", len(wrappers)), strings.Join(bad, "; "))
 	}
 	c.R.Floor(rule, "Minify methods", n, 6)
+}
+
+// R14.7: no buffering writer in the library swallows the error of its last flush.
+func (c *Ctx) r147() {
+	const rule = "R14.7"
+	c.R.Rule(rule, "the same as R14.6 for every other function of the library (the entry points M.Writer, M.Reader, the middleware, the command minifier): a bufio.NewWriter / NewWriterSize over a writer that the function did not create itself sits between the minifier's final probe `w.Write(nil)` and the real destination — bufio answers the probe from its buffer. Every Flush of such a wrapper is a plain call whose error is bound to a variable; a deferred or discarded Flush, or none at all, loses the failure of the destination (output below 4096 bytes: everything is lost and Close returns nil). The rule has no instance on the pinned tree (the library does not buffer); its self-test mutant introduces one")
+	n := 0
+	for _, rel := range libPkgs {
+		pk := c.P.Pkg(rel)
+		if pk == nil {
+			continue
+		}
+		info := pk.TypesInfo
+		for _, fd := range load.FuncDecls(pk) {
+			if fd.Body == nil {
+				continue
+			}
+			// the six Minify methods are judged by R14.6
+			if fd.Recv != nil && fd.Name.Name == "Minify" && rel != "" {
+				continue
+			}
+			ast.Inspect(fd.Body, func(x ast.Node) bool {
+				as, ok := x.(*ast.AssignStmt)
+				if !ok || len(as.Rhs) != 1 || len(as.Lhs) != 1 {
+					return true
+				}
+				call, isCall := ast.Unparen(as.Rhs[0]).(*ast.CallExpr)
+				if !isCall {
+					return true
+				}
+				cn := calleeName(info, call)
+				if cn != "bufio.NewWriter" && cn != "bufio.NewWriterSize" {
+					return true
+				}
+				lid, isL := as.Lhs[0].(*ast.Ident)
+				if !isL {
+					return true
+				}
+				wo := info.ObjectOf(lid)
+				n++
+				var bad []string
+				flushes := 0
+				ast.Inspect(fd.Body, func(z ast.Node) bool {
+					isFlush := func(ce *ast.CallExpr) bool {
+						sel, ok := ce.Fun.(*ast.SelectorExpr)
+						if !ok || sel.Sel.Name != "Flush" {
+							return false
+						}
+						id, isId := ast.Unparen(sel.X).(*ast.Ident)
+						return isId && info.Uses[id] == wo
+					}
+					switch st := z.(type) {
+					case *ast.DeferStmt:
+						if isFlush(st.Call) {
+							flushes++
+							bad = append(bad, "deferred "+str(st.Call)+" at "+c.pos(st)+": its error is dropped")
+						}
+					case *ast.ExprStmt:
+						if ce, ok := st.X.(*ast.CallExpr); ok && isFlush(ce) {
+							flushes++
+							bad = append(bad, str(ce)+" at "+c.pos(st)+" drops its error")
+						}
+					case *ast.AssignStmt:
+						if len(st.Rhs) == 1 {
+							if ce, ok := ast.Unparen(st.Rhs[0]).(*ast.CallExpr); ok && isFlush(ce) {
+								flushes++
+								if len(st.Lhs) == 1 && str(st.Lhs[0]) == "_" {
+									bad = append(bad, str(ce)+" at "+c.pos(st)+" assigns its error to _")
+								}
+							}
+						}
+					}
+					return true
+				})
+				if flushes == 0 {
+					bad = append(bad, "the wrapper is never flushed")
+				}
+				c.R.Check(len(bad) == 0, rule, fmt.Sprintf("%s.%s/buffering writer %s keeps the error of its flush", pk.Name, load.FuncName(fd), lid.Name), c.pos(as), "every Flush error is bound", "a buffering writer stands in front of the destination and "+strings.Join(bad, "; ")+": the minifier's probe write is answered by the buffer, the destination fails when the buffer is flushed, and nobody sees that error — M.Writer's Close returns nil for output that never arrived")
+				return true
+			})
+		}
+	}
+	c.R.Note("R14.7: %d buffering writers in library functions outside the Minify methods", n)
 }
